@@ -32,6 +32,9 @@ class Family:
     def impl_obs(self, raw):      # the part of the harness output that is compared with the model's observation
         return raw
 
+    def modes_for(self, c):        # (harness argv, driver argv) for a case
+        return (self.harness_mode, self.driver_args)
+
     def shrink_candidates(self, c):
         return []
 
@@ -44,15 +47,27 @@ class Family:
 
 def xrun(fam, cases):
     """run implementation and model on the cases; returns {id: rec}"""
-    hl = [fam.harness_line(c) for c in cases]
-    impl, rc, err = core.run_lines([core.HARNESS] + fam.harness_mode, hl)
-    dl = [fam.driver_line(c, impl.get(c["id"])) for c in cases]
-    model, rc2, err2 = core.run_lines([core.DRIVER] + fam.driver_args, dl)
+    groups = {}
+    for c in cases:
+        key = (tuple(fam.modes_for(c)[0]), tuple(fam.modes_for(c)[1]))
+        groups.setdefault(key, []).append(c)
+    impl, model = {}, {}
+    rc = rc2 = 0
+    err = err2 = ""
+    for (hm, da), cs in groups.items():
+        hl = [fam.harness_line(c) for c in cs]
+        i1, r1, e1 = core.run_lines([core.HARNESS] + list(hm), hl)
+        impl.update(i1)
+        dl = [fam.driver_line(c, i1.get(c["id"])) for c in cs]
+        m1, r2, e2 = core.run_lines([core.DRIVER] + list(da), dl)
+        model.update(m1)
+        rc, rc2 = rc or r1, rc2 or r2
+        err, err2 = err or e1, err2 or e2
     recs = {}
     for c in cases:
         i = impl.get(c["id"])
         if i is not None:
-            i = fam.impl_obs(i)
+            i = fam.impl_obs_for(c, i) if hasattr(fam, "impl_obs_for") else fam.impl_obs(i)
         m = model.get(c["id"])
         d = core.parse_driver(m) if m else {"obs": None}
         recs[c["id"]] = {"impl": i, "model": d.get("obs"), "spec": d.get("spec"), "ispec": d.get("ispec"),
